@@ -231,58 +231,64 @@ def modelledTags : List (String × String × String) := [
 
 def modelledValidate : List String := ["pkg/filters/proxy/proxy.go:Spec:pointer", "pkg/filters/proxy/pool.go:ServerPoolSpec:pointer", "pkg/filters/proxy/requestmatch.go:RequestMatcherSpec:pointer", "pkg/filters/proxy/requestmatch.go:MethodAndURLMatcher:pointer", "pkg/filters/proxy/requestmatch.go:StringMatcher:pointer", "pkg/filters/responseadaptor/responseadaptor.go:Spec:pointer", "pkg/protocols/httpprot/httpheader/validator.go:ValueValidator:value", "pkg/filters/ratelimiter/ratelimiter.go:Policy:value", "pkg/filters/ratelimiter/ratelimiter.go:Spec:value", "pkg/util/urlrule/urlrule.go:StringMatch:value", "pkg/filters/validator/validator.go:Spec:value", "pkg/filters/builder/builder.go:Spec:pointer", "pkg/filters/builder/requestbuilder.go:RequestBuilderSpec:pointer", "pkg/filters/builder/responsebuilder.go:ResponseBuilderSpec:pointer", "pkg/resilience/retry.go:RetryPolicy:pointer", "pkg/resilience/circuitbreaker.go:CircuitBreakerPolicy:pointer", "pkg/object/pipeline/pipeline.go:Spec:pointer", "pkg/object/globalfilter/globalfilter.go:Spec:pointer", "pkg/object/httpserver/spec.go:Spec:pointer", "pkg/object/httpserver/spec.go:Path:pointer", "pkg/object/httpserver/spec.go:Header:pointer", "pkg/object/mqttproxy/spec.go:Spec:pointer"]
 
-def guardTable : List ((String × String × Nat) × String) := [
-  (("pkg/filters/builder/builder.go", "Builder.reload", 1), "guard: builderInitOK (template.Must; repaired Validate parses the template)"),
-  (("pkg/filters/builder/extrafuncs.go", "toFloat64", 3), "allow: template functions run inside RequestBuilder/ResponseBuilder.Handle, whose deferred recover() returns buildErr (facts: recovers)"),
-  (("pkg/filters/builder/extrafuncs.go", "var extraFuncs", 1), "allow: template functions run inside RequestBuilder/ResponseBuilder.Handle, whose deferred recover() returns buildErr (facts: recovers)"),
-  (("pkg/filters/headerlookup/headerlookup.go", "HeaderLookup.Init", 1), "not-covered: kind outside the first wave (external system or MQTT-only); no harness case instantiates it"),
-  (("pkg/filters/kafka/kafka.go", "Kafka.setProducer", 1), "not-covered: kind outside the first wave (external system or MQTT-only); no harness case instantiates it"),
-  (("pkg/filters/kafkabackend/kafka.go", "Kafka.setHeader", 1), "not-covered: kind outside the first wave (external system or MQTT-only); no harness case instantiates it"),
-  (("pkg/filters/kafkabackend/kafka.go", "Kafka.Init", 1), "not-covered: kind outside the first wave (external system or MQTT-only); no harness case instantiates it"),
-  (("pkg/filters/proxy/loadbalance.go", "WeightedRandomLoadBalancer.ChooseServer", 1), "allow: BUG site, unreachable: past the early return totalWeight is the positive sum of the positive weights the loop subtracts (repair 7c1d2bb, proved under C04); rand.Intn is only called with a positive argument"),
-  (("pkg/filters/proxy/pool.go", "ServerPool.InjectResiliencePolicy", 4), "guard: poolInjectOK (known finding Proxy.retryPolicy / Proxy.circuitBreakerPolicy)"),
-  (("pkg/filters/proxy/pool.go", "ServerPool.handle", 1), "allow: BUG site, the wrapped handler only returns nil, ErrShortCircuited or a serverPoolError"),
-  (("pkg/filters/proxy/requestmatch.go", "StringMatcher.init", 1), "guard: smInitOK (regexp.MustCompile guarded by format=regexp)"),
-  (("pkg/filters/registry.go", "Register", 3), "allow: process start (filters.Register from package init), not reachable from a spec"),
-  (("pkg/filters/remotefilter/remotefilter.go", "RemoteFilter.limitRead", 2), "not-covered: kind outside the first wave (external system or MQTT-only); no harness case instantiates it"),
-  (("pkg/filters/remotefilter/remotefilter.go", "RemoteFilter.Handle", 2), "not-covered: kind outside the first wave (external system or MQTT-only); no harness case instantiates it"),
-  (("pkg/filters/remotefilter/remotefilter.go", "RemoteFilter.marshalHTTPContext", 1), "not-covered: kind outside the first wave (external system or MQTT-only); no harness case instantiates it"),
-  (("pkg/filters/remotefilter/remotefilter.go", "RemoteFilter.unmarshalHTTPContext", 2), "not-covered: kind outside the first wave (external system or MQTT-only); no harness case instantiates it"),
-  (("pkg/filters/requestadaptor/requestadaptor.go", "RequestAdaptor.Init", 4), "guard: adaptorGuardsOK (known finding: RequestAdaptor has no Validate)"),
-  (("pkg/filters/responseadaptor/responseadaptor.go", "ResponseAdaptor.Init", 4), "guard: adaptorGuardsOK (repaired Validate repeats the four guards)"),
-  (("pkg/filters/topicmapper/topicmapper.go", "TopicMapper.Init", 1), "not-covered: kind outside the first wave (external system or MQTT-only); no harness case instantiates it"),
-  (("pkg/filters/wasmhost/hostfunc.go", "WasmVM.writeDataToWasm", 1), "not-covered: kind outside the first wave (external system or MQTT-only); no harness case instantiates it"),
-  (("pkg/filters/wasmhost/hostfunc.go", "WasmVM.writeStringToWasm", 1), "not-covered: kind outside the first wave (external system or MQTT-only); no harness case instantiates it"),
-  (("pkg/filters/wasmhost/hostfunc.go", "WasmVM.writeStringArrayToWasm", 1), "not-covered: kind outside the first wave (external system or MQTT-only); no harness case instantiates it"),
-  (("pkg/filters/wasmhost/hostfunc.go", "WasmVM.readHeaderFromWasm", 1), "not-covered: kind outside the first wave (external system or MQTT-only); no harness case instantiates it"),
-  (("pkg/filters/wasmhost/hostfunc.go", "WasmVM.hostRequestGetCookie", 1), "not-covered: kind outside the first wave (external system or MQTT-only); no harness case instantiates it"),
-  (("pkg/filters/wasmhost/hostfunc.go", "WasmVM.hostClusterPutBinary", 1), "not-covered: kind outside the first wave (external system or MQTT-only); no harness case instantiates it"),
-  (("pkg/filters/wasmhost/hostfunc.go", "WasmVM.hostClusterPutString", 1), "not-covered: kind outside the first wave (external system or MQTT-only); no harness case instantiates it"),
-  (("pkg/filters/wasmhost/hostfunc.go", "WasmVM.hostClusterPutInteger", 1), "not-covered: kind outside the first wave (external system or MQTT-only); no harness case instantiates it"),
-  (("pkg/filters/wasmhost/hostfunc.go", "WasmVM.hostClusterAddInteger", 1), "not-covered: kind outside the first wave (external system or MQTT-only); no harness case instantiates it"),
-  (("pkg/filters/wasmhost/hostfunc.go", "WasmVM.hostClusterPutFloat", 1), "not-covered: kind outside the first wave (external system or MQTT-only); no harness case instantiates it"),
-  (("pkg/filters/wasmhost/hostfunc.go", "WasmVM.hostClusterAddFloat", 1), "not-covered: kind outside the first wave (external system or MQTT-only); no harness case instantiates it"),
-  (("pkg/filters/wasmhost/hostfunc.go", "WasmVM.importHostFuncs", 1), "not-covered: kind outside the first wave (external system or MQTT-only); no harness case instantiates it"),
-  (("pkg/filters/wasmhost/vm.go", "WasmVM.Run", 1), "not-covered: kind outside the first wave (external system or MQTT-only); no harness case instantiates it"),
-  (("pkg/filters/wasmhost/wasmhost.go", "WasmHost.Handle", 1), "not-covered: kind outside the first wave (external system or MQTT-only); no harness case instantiates it"),
-  (("pkg/object/pipeline/pipeline.go", "Spec.ValidateJumpIf", 4), "allow: validation time; converted to an error by the deferred recover() of pipeline.Spec.Validate (facts: recovers)"),
-  (("pkg/object/pipeline/pipeline.go", "Spec.Validate", 4), "allow: validation time; converted to an error by the deferred recover() of pipeline.Spec.Validate (facts: recovers)"),
-  (("pkg/object/pipeline/pipeline.go", "Pipeline.reload", 3), "allow: re-runs filters.NewSpec / resilience.NewPolicy / kind lookup that pipeline.Spec.Validate already ran on the same document"),
-  (("pkg/object/globalfilter/globalfilter.go", "GlobalFilter.Handle", 1), "allow: the handler is always a *pipeline.Pipeline (the only context.Handler implementation the mux mapper hands to httpserver.mux); GlobalFilter is instantiated and served by harness gf"),
-  (("pkg/object/globalfilter/globalfilter.go", "GlobalFilter.reload", 2), "guard: globalFilterInitOK (CreateAndUpdate*PipelineForSpec fails only when supervisor.NewSpec rejects the re-marshalled part that globalfilter.Spec.Validate accepted; panics of Pipeline.Init/Inherit of an instantiated part are pipelineInitOK of that part; harness gf)"),
-  (("pkg/object/httpserver/spec.go", "Header.initHeaderRoute", 1), "guard: httpServerInitOK (regexp.MustCompile(h.Regexp) guarded by format=regexp on Header.regexp: valid_implies_init_ok_HTTPServer; mux built and served by harness http)"),
-  (("pkg/object/mqttproxy/broker.go", "newBroker", 1), "guard: mqttProxyInitOK (getPipelineMap error -> panic; the repaired mqttproxy.Spec.Validate runs the same getPipelineMap: valid_implies_init_ok_MQTTProxy; broker started and driven by harness mqtt)"),
-  (("pkg/object/mqttproxy/mqttproxy.go", "MQTTProxy.Init", 1), "allow: environment, not configuration: newBroker returns nil only when the TCP/TLS listener cannot be opened (port in use, bad certificate material); harness mqtt uses port 0 without TLS"),
-  (("pkg/util/signer/signer.go", "Signer.Verify", 1), "guard: validatorHandleOK (repaired Validator.Spec.Validate requires accessKeys)"),
-  (("pkg/util/urlrule/urlrule.go", "StringMatch.Init", 1), "guard: smInitOK (regexp.MustCompile guarded by format=regexp)"),
-  (("pkg/util/urlrule/urlrule.go", "URLRule.Init", 1), "guard: smInitOK (regexp.MustCompile guarded by format=regexp)"),
-  (("pkg/protocols/httpprot/request.go", "Request.SetPayload", 1), "allow: BUG site, every caller passes []byte, string or io.Reader"),
-  (("pkg/protocols/httpprot/request.go", "Request.RawPayload", 1), "allow: stream payloads: memorycache.Store checks IsStream first; the other caller is HeaderToJSON (outside the first wave, predicted finding with clientMaxBodySize: -1, not covered)"),
-  (("pkg/protocols/httpprot/response.go", "Response.SetPayload", 1), "allow: BUG site, every caller passes []byte, string or io.Reader"),
-  (("pkg/protocols/httpprot/response.go", "Response.RawPayload", 1), "allow: stream payloads: memorycache.Store checks IsStream first; the other caller is HeaderToJSON (outside the first wave, predicted finding with clientMaxBodySize: -1, not covered)"),
-  (("pkg/v/format.go", "var urlCharsRegexp", 1), "allow: process start (package-level regexp of a constant)"),
-  (("pkg/supervisor/spec.go", "Supervisor.newSpecInternal", 1), "allow: validation time; Supervisor.NewSpec recovers (facts: recovers); newSpecInternal is not reachable from the admin API validation"),
-  (("pkg/supervisor/spec.go", "Supervisor.NewSpec", 3), "allow: validation time; Supervisor.NewSpec recovers (facts: recovers); newSpecInternal is not reachable from the admin API validation")
+/-- what is known about a panic site: its condition is a modelled guard; it is argued away in prose
+(unreachable / converted to an error by a recover); nobody instantiates the code -/
+inductive GuardClass where
+  | guard | allow | notCovered
+deriving DecidableEq, Repr
+
+def guardTable : List ((String × String × Nat) × GuardClass × String) := [
+  (("pkg/filters/builder/builder.go", "Builder.reload", 1), .guard, "builderInitOK (template.Must; repaired Validate parses the template)"),
+  (("pkg/filters/builder/extrafuncs.go", "toFloat64", 3), .allow, "template functions run inside RequestBuilder/ResponseBuilder.Handle, whose deferred recover() returns buildErr (facts: recovers)"),
+  (("pkg/filters/builder/extrafuncs.go", "var extraFuncs", 1), .allow, "template functions run inside RequestBuilder/ResponseBuilder.Handle, whose deferred recover() returns buildErr (facts: recovers)"),
+  (("pkg/filters/headerlookup/headerlookup.go", "HeaderLookup.Init", 1), .notCovered, "kind outside the first wave (external system or MQTT-only); no harness case instantiates it"),
+  (("pkg/filters/kafka/kafka.go", "Kafka.setProducer", 1), .notCovered, "kind outside the first wave (external system or MQTT-only); no harness case instantiates it"),
+  (("pkg/filters/kafkabackend/kafka.go", "Kafka.setHeader", 1), .notCovered, "kind outside the first wave (external system or MQTT-only); no harness case instantiates it"),
+  (("pkg/filters/kafkabackend/kafka.go", "Kafka.Init", 1), .notCovered, "kind outside the first wave (external system or MQTT-only); no harness case instantiates it"),
+  (("pkg/filters/proxy/loadbalance.go", "WeightedRandomLoadBalancer.ChooseServer", 1), .allow, "BUG site, unreachable: past the early return totalWeight is the positive sum of the positive weights the loop subtracts (repair 7c1d2bb, proved under C04); rand.Intn is only called with a positive argument"),
+  (("pkg/filters/proxy/pool.go", "ServerPool.InjectResiliencePolicy", 4), .guard, "poolInjectOK (known finding Proxy.retryPolicy / Proxy.circuitBreakerPolicy)"),
+  (("pkg/filters/proxy/pool.go", "ServerPool.handle", 1), .allow, "BUG site, the wrapped handler only returns nil, ErrShortCircuited or a serverPoolError"),
+  (("pkg/filters/proxy/requestmatch.go", "StringMatcher.init", 1), .guard, "smInitOK (regexp.MustCompile guarded by format=regexp)"),
+  (("pkg/filters/registry.go", "Register", 3), .allow, "process start (filters.Register from package init), not reachable from a spec"),
+  (("pkg/filters/remotefilter/remotefilter.go", "RemoteFilter.limitRead", 2), .notCovered, "kind outside the first wave (external system or MQTT-only); no harness case instantiates it"),
+  (("pkg/filters/remotefilter/remotefilter.go", "RemoteFilter.Handle", 2), .notCovered, "kind outside the first wave (external system or MQTT-only); no harness case instantiates it"),
+  (("pkg/filters/remotefilter/remotefilter.go", "RemoteFilter.marshalHTTPContext", 1), .notCovered, "kind outside the first wave (external system or MQTT-only); no harness case instantiates it"),
+  (("pkg/filters/remotefilter/remotefilter.go", "RemoteFilter.unmarshalHTTPContext", 2), .notCovered, "kind outside the first wave (external system or MQTT-only); no harness case instantiates it"),
+  (("pkg/filters/requestadaptor/requestadaptor.go", "RequestAdaptor.Init", 4), .guard, "adaptorGuardsOK (known finding: RequestAdaptor has no Validate)"),
+  (("pkg/filters/responseadaptor/responseadaptor.go", "ResponseAdaptor.Init", 4), .guard, "adaptorGuardsOK (repaired Validate repeats the four guards)"),
+  (("pkg/filters/topicmapper/topicmapper.go", "TopicMapper.Init", 1), .notCovered, "kind outside the first wave (external system or MQTT-only); no harness case instantiates it"),
+  (("pkg/filters/wasmhost/hostfunc.go", "WasmVM.writeDataToWasm", 1), .notCovered, "kind outside the first wave (external system or MQTT-only); no harness case instantiates it"),
+  (("pkg/filters/wasmhost/hostfunc.go", "WasmVM.writeStringToWasm", 1), .notCovered, "kind outside the first wave (external system or MQTT-only); no harness case instantiates it"),
+  (("pkg/filters/wasmhost/hostfunc.go", "WasmVM.writeStringArrayToWasm", 1), .notCovered, "kind outside the first wave (external system or MQTT-only); no harness case instantiates it"),
+  (("pkg/filters/wasmhost/hostfunc.go", "WasmVM.readHeaderFromWasm", 1), .notCovered, "kind outside the first wave (external system or MQTT-only); no harness case instantiates it"),
+  (("pkg/filters/wasmhost/hostfunc.go", "WasmVM.hostRequestGetCookie", 1), .notCovered, "kind outside the first wave (external system or MQTT-only); no harness case instantiates it"),
+  (("pkg/filters/wasmhost/hostfunc.go", "WasmVM.hostClusterPutBinary", 1), .notCovered, "kind outside the first wave (external system or MQTT-only); no harness case instantiates it"),
+  (("pkg/filters/wasmhost/hostfunc.go", "WasmVM.hostClusterPutString", 1), .notCovered, "kind outside the first wave (external system or MQTT-only); no harness case instantiates it"),
+  (("pkg/filters/wasmhost/hostfunc.go", "WasmVM.hostClusterPutInteger", 1), .notCovered, "kind outside the first wave (external system or MQTT-only); no harness case instantiates it"),
+  (("pkg/filters/wasmhost/hostfunc.go", "WasmVM.hostClusterAddInteger", 1), .notCovered, "kind outside the first wave (external system or MQTT-only); no harness case instantiates it"),
+  (("pkg/filters/wasmhost/hostfunc.go", "WasmVM.hostClusterPutFloat", 1), .notCovered, "kind outside the first wave (external system or MQTT-only); no harness case instantiates it"),
+  (("pkg/filters/wasmhost/hostfunc.go", "WasmVM.hostClusterAddFloat", 1), .notCovered, "kind outside the first wave (external system or MQTT-only); no harness case instantiates it"),
+  (("pkg/filters/wasmhost/hostfunc.go", "WasmVM.importHostFuncs", 1), .notCovered, "kind outside the first wave (external system or MQTT-only); no harness case instantiates it"),
+  (("pkg/filters/wasmhost/vm.go", "WasmVM.Run", 1), .notCovered, "kind outside the first wave (external system or MQTT-only); no harness case instantiates it"),
+  (("pkg/filters/wasmhost/wasmhost.go", "WasmHost.Handle", 1), .notCovered, "kind outside the first wave (external system or MQTT-only); no harness case instantiates it"),
+  (("pkg/object/pipeline/pipeline.go", "Spec.ValidateJumpIf", 4), .allow, "validation time; converted to an error by the deferred recover() of pipeline.Spec.Validate (facts: recovers)"),
+  (("pkg/object/pipeline/pipeline.go", "Spec.Validate", 4), .allow, "validation time; converted to an error by the deferred recover() of pipeline.Spec.Validate (facts: recovers)"),
+  (("pkg/object/pipeline/pipeline.go", "Pipeline.reload", 3), .allow, "re-runs filters.NewSpec / resilience.NewPolicy / kind lookup that pipeline.Spec.Validate already ran on the same document"),
+  (("pkg/object/globalfilter/globalfilter.go", "GlobalFilter.Handle", 1), .allow, "the handler is always a *pipeline.Pipeline (the only context.Handler implementation the mux mapper hands to httpserver.mux); GlobalFilter is instantiated and served by harness gf"),
+  (("pkg/object/globalfilter/globalfilter.go", "GlobalFilter.reload", 2), .guard, "globalFilterInitOK (CreateAndUpdate*PipelineForSpec fails only when supervisor.NewSpec rejects the re-marshalled part that globalfilter.Spec.Validate accepted; panics of Pipeline.Init/Inherit of an instantiated part are pipelineInitOK of that part; harness gf)"),
+  (("pkg/object/httpserver/spec.go", "Header.initHeaderRoute", 1), .guard, "httpServerInitOK (regexp.MustCompile(h.Regexp) guarded by format=regexp on Header.regexp: valid_implies_init_ok_HTTPServer; mux built and served by harness http)"),
+  (("pkg/object/mqttproxy/broker.go", "newBroker", 1), .guard, "mqttProxyInitOK (getPipelineMap error -> panic; the repaired mqttproxy.Spec.Validate runs the same getPipelineMap: valid_implies_init_ok_MQTTProxy; broker started and driven by harness mqtt)"),
+  (("pkg/object/mqttproxy/mqttproxy.go", "MQTTProxy.Init", 1), .allow, "environment, not configuration: newBroker returns nil only when the TCP/TLS listener cannot be opened (port in use, bad certificate material); harness mqtt uses port 0 without TLS"),
+  (("pkg/util/signer/signer.go", "Signer.Verify", 1), .guard, "validatorHandleOK (repaired Validator.Spec.Validate requires accessKeys)"),
+  (("pkg/util/urlrule/urlrule.go", "StringMatch.Init", 1), .guard, "smInitOK (regexp.MustCompile guarded by format=regexp)"),
+  (("pkg/util/urlrule/urlrule.go", "URLRule.Init", 1), .guard, "smInitOK (regexp.MustCompile guarded by format=regexp)"),
+  (("pkg/protocols/httpprot/request.go", "Request.SetPayload", 1), .allow, "BUG site, every caller passes []byte, string or io.Reader"),
+  (("pkg/protocols/httpprot/request.go", "Request.RawPayload", 1), .allow, "stream payloads: memorycache.Store checks IsStream first; the other caller is HeaderToJSON (outside the first wave, predicted finding with clientMaxBodySize: -1, not covered)"),
+  (("pkg/protocols/httpprot/response.go", "Response.SetPayload", 1), .allow, "BUG site, every caller passes []byte, string or io.Reader"),
+  (("pkg/protocols/httpprot/response.go", "Response.RawPayload", 1), .allow, "stream payloads: memorycache.Store checks IsStream first; the other caller is HeaderToJSON (outside the first wave, predicted finding with clientMaxBodySize: -1, not covered)"),
+  (("pkg/v/format.go", "var urlCharsRegexp", 1), .allow, "process start (package-level regexp of a constant)"),
+  (("pkg/supervisor/spec.go", "Supervisor.newSpecInternal", 1), .allow, "validation time; Supervisor.NewSpec recovers (facts: recovers); newSpecInternal is not reachable from the admin API validation"),
+  (("pkg/supervisor/spec.go", "Supervisor.NewSpec", 3), .allow, "validation time; Supervisor.NewSpec recovers (facts: recovers); newSpecInternal is not reachable from the admin API validation")
   ]
 
 /-- the arithmetic core: `A·(T+m) + B < 2^63·B`, `0 ≤ A`, `m ≤ T` ⇒ `A·m·2 < (2^63-1)·B` -/
